@@ -344,6 +344,13 @@ package mail
 //@   ensures[C02:id] result == c
 //@ func mail.Charset.String
 //@   ensures[C02:id] result == c
+// header folding cannot end the header block: what writeHeader hands to writeString before the final CRLF is
+// "folded" - every line break in it is followed by a blank - and starts with the first byte of the key
+//@ pred wordsafe(ws []string) = forall j :: 0 <= j && j < len(ws) ==> nocrlf(ws[j])
+//@ pred keyok(key string) = len(key) >= 1 && nocrlf(key) && key[0] != 32
+//@ func mail.msgWriter.writeHeader (key, values)
+//@   loop 1 invariant[C02:fold] keyok(key) ==> (wordsafe(words) && folded(buffer.bcontent) && nowsline(buffer.bcontent) && len(buffer.bcontent) >= 1 && buffer.bcontent[0] == key[0] && (endsfold(buffer.bcontent) ==> rangeindex + 1 >= len(words)) && 0 <= rangeindex + 1)
+//@ at mail.msgWriter.writeHeader mail.msgWriter.writeString#1 before assert[C02:no-empty-line] keyok(key) ==> (folded(arg1) && len(arg1) >= 1 && arg1[0] == key[0])
 
 // ---------------------------------------------------------------------------
 // C18  Line discipline of the base64 line breaker (ghost col / maxcol / bare on the output sink)
